@@ -57,6 +57,14 @@ def gen_cases(rng, tier, driver, corr, stats, families):
         emit("valid", k, n, ad, ct)
         for bit in range(128):                               # every tag bit
             emit("tagbit", k, n, ad, ct[:-16] + flip(ct[-16:], bit))
+        # the same difference in two tag bytes at word distances: a comparison that combines per-word differences must not let them cancel
+        for d in (1, 2, 4, 8):
+            for i in range(0, 16 - d, 1 if tier == "thorough" else 3):
+                b = 1 << rng.randrange(8)
+                t2 = bytearray(ct[-16:]); t2[i] ^= b; t2[i + d] ^= b
+                emit("tagpair", k, n, ad, ct[:-16] + bytes(t2))
+        t2 = bytes(x ^ 0x5a for x in ct[-16:])
+        emit("tagpair", k, n, ad, ct[:-16] + t2)
         body = len(ct) - 16
         for bit in (range(body * 8) if body <= 64 else [8 * i + rng.randrange(8) for i in range(body)]):
             emit("ctbit", k, n, ad, flip(ct, bit))
@@ -123,11 +131,13 @@ def run(res, tier, seed, replay=None):
     else:
         gen_cases(rng, tier, driver, corr, stats, families)
     configs = ["default", "c32"] if tier == "quick" else ["default", "c64", "c32", "directxor", "generic"]
+    # the masked entry points (AEM lines) have share-count-specific code: other (key, data, max) share builds as well
+    configs += [("c64", (3, 3, 3))] if tier == "quick" else [("c64", (3, 3, 3)), ("c32", (4, 1, 4)), ("default", (3, 2, 3)), ("c64", (4, 4, 4))]
     per = []
     with common.Scratch() as sc:
         b = stdflow.Builds(res, sc)
         for cfg in configs:
-            got = b.get(cfg)
+            got = b.get(*cfg) if isinstance(cfg, tuple) else b.get(cfg)
             if got:
                 per.append(diffrun.compare(res, corr, driver, got[1], got[2]))
     res.cov.update({
